@@ -967,6 +967,20 @@ def run(chk):
     rec3.okcount = rec.okcount
     systematic(chk, rec3, quick, chk.scratch)
     validate(chk, rec3, "S3_catalogue", lambda k: {"systematic": rec3.lines[k]["ctx"]})
+    # ---- S3b: the repository's own tests as drivers (recorded from outside by harness/record_plugin.py)
+    rlines, summ = common.repo_test_traces(chk, ["frame"])
+    fl = rlines["frame"]
+    slim = [{k: ln[k] for k in ("kind", "op", "args", "live", "refused", "copy_equal", "copy_disjoint")} for ln in fl]
+    rej = common.validate_trace_parallel(chk, "Trace_Frame", "Trace_Frame", slim, "S3b_repo_tests", jobs=8, chunk=3000)
+    for r in rej:
+        ln = fl[r[0] - 1]
+        d = ln.get("diffs") or [["", ""]]
+        chk.violation({"entry": ln["op"], "clause": r[2], "culprit": "%s %s" % (d[0][0], diff_class(d[0][1])) if r[2] == "C13:argument_modified" else ln.get("type", "")},
+                      {"line": ln, "how": {"recorded_from_repository_test": ln.get("test")}}, "S3b_repo_tests")
+    for ln in fl:
+        chk.case(["repo-test", ln["kind"], ln["op"], ln["exc"] != "none"])
+    chk.stages["S3b_repo_tests"] = dict(chk.stages.get("S3b_repo_tests", {}), tests_passed_under_recording=summ["tests_passed_under_recording"], recorder_errors=summ["recorder_errors"],
+                                        calls_seen={k.split(":", 1)[1]: v for k, v in summ["counts"].items() if k.startswith("frame:")}, cap_per_operation=summ["cap_per_operation"])
     never = sorted(n for n, (tot, ok) in rec.okcount.items() if ok == 0 and not n.startswith(("setattr", "delattr", "item ")))
     chk.stages["S3_catalogue"] = dict(chk.stages.get("S3_catalogue", {}), public_calls=len(rec.okcount), calls_recorded=len(rec3.lines),
                                       calls_that_never_succeeded=never)
@@ -986,6 +1000,12 @@ def replay(path):
     rec = Recorder(Dummy())
     scratch = tlc.make_scratch()
     try:
+        if "recorded_from_repository_test" in how:
+            Dummy.scratch = scratch
+            lines, summ = common.repo_test_traces(Dummy, ["frame"], select=[how["recorded_from_repository_test"]])
+            bad = [ln for ln in lines["frame"] if ln.get("diffs") or not ln["copy_equal"] or not ln["copy_disjoint"] or (ln["kind"] == "mutate_attempt" and not ln["refused"])]
+            print(json.dumps({"recorded": line, "now": bad[:5], "calls": len(lines["frame"])}, indent=1, default=str))
+            return 0
         if "behaviour" in how:
             run_behaviour(Dummy(), rec, how["behaviour"], how["seed"], how["v"], scratch)
         else:
